@@ -642,14 +642,32 @@ def join(sep, items):
     return mk(out)
 
 
+def _replay_bytes(name, n):
+    import hashlib
+    out = b''
+    i = 0
+    while _len(out) < n:
+        out += hashlib.sha256(('%s:%d' % (name, i)).encode()).digest()
+        i += 1
+    return out[:n]
+
+
 def blob(name, lo=0, hi=None, excludes=b''):
     """fresh opaque byte string of symbolic length in [lo, hi]; declared as input '<name>_len'"""
     L = core.symint(name + '_len', lo, hi)
+    if core._rp() is not None:
+        L = max(0, min(L, 1 << 24))
+        data = _replay_bytes(name, L)
+        for ch in excludes:
+            data = data.replace(_bytes([ch]), b'_')
+        return data, L
     b = Blob(name, _zi(L), meta={'excludes': excludes})
     return mk([('view', b, z3.IntVal(0), _zi(L))]), L
 
 
 def fixed_blob(name, n, excludes=b''):
+    if core._rp() is not None:
+        return _replay_bytes(name, n)
     b = Blob(name, z3.IntVal(n), meta={'excludes': excludes})
     return mk([('view', b, z3.IntVal(0), z3.IntVal(n))])
 
@@ -660,10 +678,14 @@ def symbytes(name, n):
     for i in range(n):
         v = core.symint('%s[%d]' % (name, i), 0, 255)
         ps.append(byte_piece(v))
+    if core._rp() is not None:
+        return b''.join(p[1] for p in ps)
     return mk(ps)
 
 
 def field(term, width, signed=False):
+    if core._rp() is not None:
+        return builtins.int(term).to_bytes(width, 'big', signed=signed)
     return mk([('fld', _zi(term), width, signed)])
 
 
